@@ -670,6 +670,10 @@ class Exec:
         xs = elems_of(it)
         if xs is not None:
             return xs
+        pinned = getattr(self, "pinned", None)
+        if pinned and isinstance(it, Sym) and isinstance(it.ty, SeqTy) and it.e.get_id() in pinned:
+            # bounded stand-in: this argument's length is fixed to k (assumed as a precondition), its elements are seq[0..k)
+            return [Sym(it.ty.elem, it.e[i]) for i in range(pinned[it.e.get_id()])]
         if isinstance(it, ClassV) and it.ci.is_enum:
             t = self.world.class_ty(it.ci.name)
             return [Sym(t, t.const(m)) for m in t.members]
